@@ -11,7 +11,7 @@ Check (C16_cache_bounded : forall ether hw cap evs i tfr, 1 <= cap ->
 Check (C16_invariant_preserved : forall evs i i' tfr log0,
   1 <= if_cap i -> cache_wf (if_cap i) (if_cache i) -> cache_inv log0 (if_cache i) ->
   nh_run i evs = Ok (i', tfr) ->
-  if_cap i' = if_cap i /\ if_ether i' = if_ether i /\ if_hw i' = if_hw i /\
+  if_cap i' = if_cap i /\ if_ether i' = if_ether i /\
   cache_wf (if_cap i) (if_cache i') /\ cache_inv (log0 ++ nh_log i evs) (if_cache i')).
 
 Check (C16_unicast_uses_learned_addr : forall ether hw cap evs i tfr dst now i' fr h,
@@ -113,6 +113,20 @@ Check (C16_sim_cache_bounded : forall ether hw cap rcap qcap kinds evs st tfr, 1
   sim_trace (sim_init ether hw cap rcap qcap kinds) evs = Ok (st, tfr) ->
   Z.of_nat (length (c_storage (if_cache (sim_if st)))) <= cap /\
   NoDup (map fst (c_storage (if_cache (sim_if st))))).
+
+Check (C16_backpressure_keeps_everything : forall i s rest now b s1,
+  bud_empty b = true -> sim_sock_wants_token i s now = Some s1 ->
+  sim_socket_egress i (s :: rest) now b = Ok (i, s1 :: rest, [], false, b) /\
+  sk_q s1 = sk_q s /\ sk_kind s1 = sk_kind s).
+
+Check (C16_backpressure_ingress_waits : forall i rx now b, bud_empty b = true ->
+  sim_ingress i rx now b = Ok (i, [], rx, b)).
+
+Check (C16_set_hardware_addr : forall i hw,
+  (hw_is_unicast i hw = true ->
+     exists i', nh_set_hardware_addr i hw = Ok i' /\ if_hw i' = hw /\ if_cache i' = if_cache i /\
+                if_addrs i' = if_addrs i /\ if_routes i' = if_routes i /\ if_cap i' = if_cap i) /\
+  (hw_is_unicast i hw = false -> nh_set_hardware_addr i hw = Panic)).
 
 Check (C16_example :
   exists i,
